@@ -472,8 +472,8 @@ def extra_specs() -> list[dict]:
                 lv["p_crossover"] = 0.6
             if lv["engine"] == "LHS":
                 lv.pop("gens", None)
-        out.append(dict(base, name=f"xtra{n}", seed=2100 + n, levels=[lv0, lv1], maximize=(k % 2 == 0), fn=["multi", "funnels"][k % 2],
-                        ret_form=["arr0", "np64", "arr0"][k % 3], reports=(k % 2 == 1), dump_at=(2 if k % 3 == 0 else None),
+        out.append(dict(base, name=f"xtra{n}", seed=2100 + n, levels=[lv0, lv1], maximize=(k % 2 == 0), fn=("plateau" if k == 4 else ["multi", "funnels"][k % 2]),
+                        ret_form=["arr0", "np64", "arr0", "f32", "i64", "f32"][k], reports=(k % 2 == 1 or k >= 3), dump_at=(2 if k % 3 == 0 else None),
                         sprout={"kind": "simple", "far": 0.05, "limit": 2}, gsc={"kind": "MetaepochLimit", "n": 5}))
         if out[-1]["dump_at"] is None:
             out[-1].pop("dump_at")
